@@ -480,6 +480,8 @@ func call(i *interpreter, caller *frame, callpos token.Pos, fn value, args []val
 		return callSSA(i, caller, callpos, fn.Fn, args, fn.Env)
 	case *ssa.Builtin:
 		return callBuiltin(caller, callpos, fn, args)
+	case nativeFunc:
+		return fn(i, args)
 	}
 	panic(fmt.Sprintf("cannot call %T", fn))
 }
